@@ -89,7 +89,7 @@ type blankRec struct {
 
 var primTypes = map[string]reflect.Type{
 	"blank": reflect.TypeOf(blankRec{}),
-	"recA": localRecA(), "recB": localRecB(),
+	"recA":  localRecA(), "recB": localRecB(),
 	"nu8": reflect.TypeOf(namedU8(0)), "ni16": reflect.TypeOf(namedI16(0)),
 	"nu32": reflect.TypeOf(namedU32(0)), "ni64": reflect.TypeOf(namedI64(0)),
 	"u8": reflect.TypeOf(uint8(0)), "u16": reflect.TypeOf(uint16(0)),
